@@ -451,7 +451,8 @@ func c14Run(c *Ctx) {
 	// sequences up to length 3 (quick 2) over lines that spell the same path as a dotted key, as nested
 	// documents, under operators and arrays, through the real CLI (fresh process per sequence, one line per
 	// process for the reference outputs)
-	if c.Shard < 3 {
+	// (every worker takes its share of the sequences of every family)
+	for fi := range c14Families {
 		mk := func(filter string) c06Sym {
 			return c06Sym{Name: filter, Text: `{"t":{"$date":"2024-05-01T10:00:00.123+00:00"},"s":"I","c":"COMMAND","id":51803,"ctx":"conn1","msg":"Slow query","attr":{"type":"command","ns":"hr.staff","command":{"find":"staff","filter":` + filter + `,"$db":"hr"},"durationMillis":5}}`, Class: "object"}
 		}
@@ -467,7 +468,26 @@ func c14Run(c *Ctx) {
 		if c.Thorough() {
 			n = 3
 		}
-		c06CLI(c, alpha, n, Flags{Z: c14Families[c.Shard].re})
+		c06CLI(c, alpha, n, Flags{Z: c14Families[fi].re})
+		// the same for Atlas Search clauses (the operator tables are shared by all lines of a run): geo and text
+		// operators inside compound clauses and on their own, on a matching and on a non-matching path, with numbers
+		// redacted as well; all sequences of up to 2 lines
+		sk := func(stage string) c06Sym {
+			return c06Sym{Name: stage, Text: `{"t":{"$date":"2024-05-01T10:00:00.123+00:00"},"s":"I","c":"COMMAND","id":51803,"ctx":"conn1","msg":"Slow query","attr":{"type":"command","ns":"hr.staff","command":{"aggregate":"staff","pipeline":[{"$search":` + stage + `}],"cursor":{},"$db":"hr"},"durationMillis":5}}`, Class: "object"}
+		}
+		var salpha []c06Sym
+		for _, path := range []string{"ssn", "office"} {
+			geoShape := `{"geoShape":{"path":"` + path + `","relation":"within","geometry":{"type":"Polygon","coordinates":[[[-73.54,45.54],[-73.5,45.5],[-73.54,45.54]]]}}}`
+			within := `{"geoWithin":{"path":"` + path + `","circle":{"center":{"type":"Point","coordinates":[-73.54,45.54]},"radius":1600}}}`
+			box := `{"geoWithin":{"path":"` + path + `","box":{"bottomLeft":{"type":"Point","coordinates":[112.4,-43.6]},"topRight":{"type":"Point","coordinates":[155.0,-9.1]}}}}`
+			text := `{"text":{"path":"` + path + `","query":"111-22-3333 words"}}`
+			salpha = append(salpha,
+				sk(`{"index":"default","compound":{"must":[`+geoShape[1:len(geoShape)-1]+`}]}}`[0:0]+`{"index":"default","compound":{"must":[`+geoShape+`]}}`),
+				sk(`{"index":"default","compound":{"should":[`+within+`],"mustNot":[`+box+`]}}`),
+				sk(`{"index":"default",`+geoShape[1:]),
+				sk(`{"index":"default","compound":{"filter":[`+text+`,`+within+`]}}`))
+		}
+		c06CLI(c, salpha, 2, Flags{Z: c14Families[fi].re, N: true})
 	}
 }
 
